@@ -227,7 +227,7 @@ func (s *scen) Apply(op int) bfs.Step {
 	beforeT, beforeS := s.tracked(paddr), s.serviced(paddr)
 	res := w.Pay(paddr, relays...)
 	if res.Panic != "" {
-		return bfs.Step{Accepted: false, Obs: "tx-panic", Viol: viol("tx-panic:"+firstLine(res.Panic), o.name+" panicked: "+firstLine(res.Panic))}
+		return bfs.Step{Accepted: false, Obs: "tx-panic", Viol: viol("tx-panic:"+stable(firstLine(res.Panic)), o.name+" panicked: "+firstLine(res.Panic))}
 	}
 	if !res.OK() {
 		return bfs.Step{Accepted: false, Obs: "pay-rejected"}
@@ -275,6 +275,27 @@ func (s *scen) Apply(op int) bfs.Step {
 	return bfs.Step{Accepted: true, Obs: obs}
 }
 
+// stable replaces digit runs so that a panic message makes a canonical key
+func stable(s string) string {
+	var b strings.Builder
+	prevDigit := false
+	for _, r := range s {
+		if r >= '0' && r <= '9' {
+			if !prevDigit {
+				b.WriteByte('N')
+			}
+			prevDigit = true
+			continue
+		}
+		prevDigit = false
+		b.WriteRune(r)
+	}
+	if b.Len() > 80 {
+		return b.String()[:80]
+	}
+	return b.String()
+}
+
 func firstLine(s string) string {
 	if i := strings.IndexByte(s, '\n'); i >= 0 {
 		return s[:i]
@@ -285,15 +306,15 @@ func firstLine(s string) string {
 func init() {
 	bfs.Register("c18", func() bfs.Scenario { return build() })
 	reg.Register(reg.Check{Property: "C18", Level: "model_checking", Run: func(run *ev.Run) {
-		depth, deadline := 4, 60*time.Second
+		depth, deadline := 6, 55*time.Second
 		if ev.Tier() == "thorough" {
-			depth, deadline = 7, 15*time.Minute
+			depth, deadline = 10, 14*time.Minute
 		}
 		cfg := bfs.Config{Scenario: "c18", MaxDepth: depth, Deadline: deadline}
 		st := bfs.Explore(cfg, run)
 		bfs.Report(run, "", cfg, st)
 		run.Set("exhaustive", st.Exhaustive)
-		run.Set("bound", fmt.Sprintf("all histories up to depth %d over 19 ops: payments through badge B0 (allocation 10, fixture epoch, user u, signed by the developer key) with CU 4/6/7 in sessions s1-s3 to providers p0/p1, in one tx or several, with a plain relay inside the tx or as its own tx, a relay of the badge user without the badge in the same tx; badge B1 for the next epoch (CU 7/4); 4 never-valid variants (foreign relay signer, badge epoch != relay epoch, badge for another lava chain, badge signed by a non-developer); +1 block, next epoch, advance to B0's record expiry; horizon 2 epochs past the expiry", depth))
+		run.Set("bound", fmt.Sprintf("all histories up to depth %d over 19 ops: payments through badge B0 (allocation 10, fixture epoch, user u, signed by the developer key) with CU 4/6/7 in sessions s1-s3 to providers p0/p1, in one tx or several (sums 10 and 13), with a plain relay inside the tx or as its own tx, a second relay of the badge user that does not carry the badge in the same tx; badge B1 for the next epoch (CU 7/4); 4 never-valid variants (foreign relay signer, badge epoch != relay epoch, badge for another lava chain, badge signed by a non-developer); +1 block, next epoch, advance to B0's record expiry; horizon 2 epochs past the expiry", depth))
 		run.Assume("mock bank/account keeper of testutil/keeper; transactions atomic as in baseapp; credited CU = movement of the provider's tracked-CU / serviced-CU ledgers; record expiry = badge epoch + EpochsToSave*EpochBlocks (cross-checked with the keeper at start-up); plan limits (10000 per epoch) never cap the payments used")
 	}})
 }
